@@ -7,7 +7,7 @@ use vcore::{Cfg, Value, json};
 pub const TEXT: [char; 7] = ['a', '_', '1', 'é', '漢', '𝄞', '\u{301}'];
 
 /// (kind, program with `□` where the text goes)
-pub const POSITIONS: [(&str, &str); 53] = [
+pub const POSITIONS: [(&str, &str); 58] = [
     // literals that end exactly at the end of the file
     ("eof:string", "const C: String = \"□\""),
     ("eof:char", "const C: char = '□'"),
@@ -61,6 +61,13 @@ pub const POSITIONS: [(&str, &str); 53] = [
     ("fstring:text-after-expr", "fn f() -> String { f\"{1}□\" }"),
     ("fstring:both", "fn f() -> String { f\"□{1}□\" }"),
     ("fstring:unterminated", "fn f() -> String { f\"□"),
+    // escape sequences (valid and invalid) followed by arbitrary text: the
+    // location of an escape error must stay on character boundaries
+    ("fstring:escaped", "fn f() -> String { f\"\\□\" }"),
+    ("fstring:escaped-before-expr", "fn f() -> String { f\"x\\□{1}\" }"),
+    ("fstring:escaped-after-expr", "fn f() -> String { f\"{1}é\\□\" }"),
+    ("char:escaped", "fn f() -> char { '\\□' }"),
+    ("string:escaped-after-multibyte", "fn f() -> String { \"é\\□\" }"),
     // comments
     ("comment:line", "// □\nfn f() {}"),
     ("comment:at-eof", "fn f() {} //□"),
